@@ -4,4 +4,4 @@ Require Extraction.
 Require Import ExtrOcamlBasic.
 Extraction Language OCaml.
 Extraction "model.ml" focused_transform focused_transform_segs render_path xupdate xexpand raw erase inject root_accepts canon
-  q_pinned q_fixed sq_old sq_new wt inline link_free sort_maps rfc_ltb dm_eqb f64_is_nan has_nil.
+  q_pinned q_fixed sq_old sq_new wt inline link_free sort_maps rfc_ltb dm_eqb f64_is_nan has_nil has_refused.
